@@ -676,6 +676,187 @@ def huge_sparse_case(work, rep, ev):
     return 1
 
 
+def cli_opts_stage(tools, work, rep, ev, tier, rng):
+    """spec/CliOpts.tla: -b / -B with size suffixes, --defaults uid= gid= mode= mtime=, SOURCE_DATE_EPOCH: every combination TLC
+    enumerates has a specified meaning (refused, or block size / padding / attributes of the root and of implicit directories);
+    a sample of them on the real gensquashfs, the image decoded independently."""
+    cfg = work + "/cli.cfg"
+    C = {"Emit": False, "EpochOverridesDefaults": False, "SuffixCaseSensitive": False}
+    write_cfg(cfg, spec="Spec", constants=C, invariants=["ExplicitWins", "EnvNeverRefuses", "SuffixCaseFree"], deadlock=False)
+    r = run_tlc("CliOpts", cfg, workers=4, timeout=600)
+    ev.tlc(r, "CliOpts")
+    if not r["ok"]:
+        print("MODEL-FAILURE: CliOpts violates %s" % r["violated"])
+        return None
+    for dev in ("EpochOverridesDefaults", "SuffixCaseSensitive"):
+        write_cfg(cfg, spec="Spec", constants=dict(C, **{dev: True}), invariants=["ExplicitWins", "EnvNeverRefuses", "SuffixCaseFree"], deadlock=False)
+        r = run_tlc("CliOpts", cfg, workers=4, timeout=600)
+        ev.tlc(r, "dev CliOpts " + dev)
+        if not r["violated"]:
+            print("SELF-CHECK-FAILED: CliOpts deviation %s without counterexample" % dev)
+            return None
+    write_cfg(cfg, spec="Spec", constants=dict(C, Emit=True), invariants=["EmitOK"], deadlock=False)
+    r = run_tlc("CliOpts", cfg, workers=4, timeout=900, heap="8g")
+    cases = bpbind.parse_emitted(r["out"])
+    if len(cases) < 30000:
+        print("SELF-CHECK-FAILED: CliOpts emitted %d cases" % len(cases))
+        return None
+    rng.shuffle(cases)
+    ref = [c for c in cases if c["m"]["refused"]]
+    ok = [c for c in cases if not c["m"]["refused"]]
+    cap = 300 if tier == "quick" else 6000
+    cases = ref[:cap // 2] + ok[:cap]
+    d = work + "/cli"
+    os.makedirs(d, exist_ok=True)
+    open(d + "/src.bin", "wb").write(b"x" * 5000)
+    open(d + "/p.txt", "w").write("file /a/b/f 0644 1 2 %s/src.bin\n" % d)
+    BS = {"128K": 131072, "4K": 4096, "8K": 8192, "1M": 1048576}
+    PAD = {"4K": 4096, "1K": 1024, "8K": 8192, "64K": 65536, "1M": 1048576}
+
+    def do(i):
+        c = cases[i]
+        o, m = c["o"], c["m"]
+        args = [tools + "/gensquashfs", "-q", "-f", "-c", "gzip", "-F", d + "/p.txt"]
+        if o["b"] != "none":
+            args += ["-b", o["b"]]
+        if o["db"] != "none":
+            args += ["-B", o["db"]]
+        sub = ",".join("%s=%s" % (k, o[k]) for k in ("uid", "gid", "mode", "mtime") if o[k] != "none")
+        if sub:
+            args += ["--defaults", sub]
+        env = {k: v for k, v in os.environ.items() if k != "SOURCE_DATE_EPOCH"}
+        if o["epoch"] != "unset":
+            env["SOURCE_DATE_EPOCH"] = o["epoch"]
+        out = "%s/o%d.sqfs" % (d, i)
+        p = subprocess.run(args + [out], capture_output=True, env=env, timeout=60)
+        err = p.stderr.decode(errors="replace")
+        desc = " ".join(args[6:]) + ("  SOURCE_DATE_EPOCH=%r" % o["epoch"] if o["epoch"] != "unset" else "")
+        try:
+            if p.returncode < 0 or "ERROR: AddressSanitizer" in err:
+                return "pack-memory-error", "gensquashfs %s: crash %s" % (desc, err[-200:])
+            if m["refused"]:
+                if p.returncode == 0:
+                    return "option-accepted", "gensquashfs %s: exit 0, the option values cannot be honoured (specification: refused)" % desc
+                return None
+            if p.returncode != 0:
+                return "pack-refuses-valid", "gensquashfs %s: refused (%s)" % (desc, err.strip()[-150:])
+            raw = open(out, "rb").read()
+            img = sqfsimg.SqfsImage(raw)
+            t = img.tree(with_content=False)
+            if img.super["block_size"] != BS[m["block"]]:
+                return "option-block-size", "gensquashfs %s: block size %d, specified %s" % (desc, img.super["block_size"], m["block"])
+            if len(raw) % PAD[m["pad"]] or len(raw) - img.super["bytes_used"] >= PAD[m["pad"]]:
+                return "option-padding", "gensquashfs %s: image of %d bytes (used %d), padding unit %s" % (desc, len(raw), img.super["bytes_used"], m["pad"])
+            for pth in (b"", b"a", b"a/b"):
+                n = t[pth]
+                got = (n["uid"], n["gid"], n["mode"], n["mtime"])
+                want = (int(m["uid"]), int(m["gid"]), int(m["mode"], 8), int(m["mtime"]))
+                if got != want:
+                    return "option-defaults", "gensquashfs %s: directory /%s has (uid, gid, mode, mtime) %s, specified %s" % (desc, pth.decode(), (got[0], got[1], oct(got[2]), got[3]), (want[0], want[1], oct(want[2]), want[3]))
+            if t[b"a/b/f"]["mtime"] != int(m["mtime"]):
+                return "option-defaults", "gensquashfs %s: file time stamp %d, specified %s" % (desc, t[b"a/b/f"]["mtime"], m["mtime"])
+            return None
+        finally:
+            if os.path.exists(out):
+                os.unlink(out)
+    n, seen = 0, set()
+    with ThreadPoolExecutor(16) as ex:
+        for res in ex.map(do, range(len(cases))):
+            n += 1
+            if res and res[0] not in seen:
+                seen.add(res[0])
+                rep.violation(res[0], res[1])
+    ev.set("cli_option_cases_replayed", n)
+    return n
+
+
+def stat_listing_stage(tools, work, rep, ev, rng):
+    """read-back through `rdsquashfs -s` (every inode kind, basic and extended) and `rdsquashfs -l`, plus one packing run WITHOUT -q (the
+    statistics path): what these print must be what the independent decoder finds in the image"""
+    import re
+    sc = [s for s, _ in boundary_scenarios(work + "/st", rng, "quick") if os.path.basename(s.dir) in ("b_types", "b_sizes", "b_links_multiblock")]
+    n = 0
+    seen = set()
+    for s in sc:
+        img = s.dir + "/stat.sqfs"
+        args = [tools + "/gensquashfs", "-f", "-c", "gzip", "-b", "4096", "-e", "-F", s.packfile()]       # no -q: progress + statistics output
+        if s.xattrfile():
+            args += ["-A", s.xattrfile()]
+        rc, o, e = sh(args + [img], timeout=300)
+        if rc != 0 or b"ERROR: AddressSanitizer" in e:
+            rep.violation("pack-memory-error" if rc < 0 or b"AddressSanitizer" in e else "pack-refuses-valid", "gensquashfs without -q on %s: exit %d %s" % (os.path.basename(s.dir), rc, e.decode(errors="replace")[-200:]))
+            continue
+        im = sqfsimg.load(img)
+        t = im.tree(with_content=False)
+        names = sorted(p for p in t if p)
+        rng.shuffle(names)
+        KIND = {"dir": "directory", "file": "file", "slink": "symbolic link", "chr": "character device", "blk": "block device", "fifo": "named pipe", "sock": "socket"}
+
+        def one(pth):
+            rc2, o2, e2 = sh([tools + "/rdsquashfs", "-s", pth.decode(errors="surrogateescape"), img], timeout=60)
+            if rc2 != 0:
+                return pth, "rdsquashfs -s fails (rc %d): %s" % (rc2, e2.decode(errors="replace")[-100:])
+            txt = o2.decode(errors="replace")
+            nd = t[pth]
+            ino = im.by_num[nd["inum"]]
+            f = dict(re.findall(r"^([A-Za-z ]+): (.*)$", txt, re.M))
+            want_type = ("extended " if ino["ext"] else "") + KIND[nd["kind"]]
+            if f.get("Inode type") != want_type:
+                return pth, "inode type %r, image has %r" % (f.get("Inode type"), want_type)
+            if f.get("Inode number") != str(nd["inum"]):
+                return pth, "inode number %s, image has %d" % (f.get("Inode number"), nd["inum"])
+            if f.get("Access") != "0%o" % nd["mode"]:
+                return pth, "access %s, image has 0%o" % (f.get("Access"), nd["mode"])
+            if not f.get("UID", "").startswith("%d " % nd["uid"]) or not f.get("GID", "").startswith("%d " % nd["gid"]):
+                return pth, "owner %s / %s, image has %d / %d" % (f.get("UID"), f.get("GID"), nd["uid"], nd["gid"])
+            if nd["kind"] == "slink" and f.get("Link target") != nd["target"].decode(errors="replace"):
+                return pth, "link target %r, image has %r" % (f.get("Link target"), nd["target"])
+            if nd["kind"] == "file" and f.get("File size") != str(nd["size"]):
+                return pth, "file size %s, image has %d" % (f.get("File size"), nd["size"])
+            if nd["kind"] in ("chr", "blk") and not f.get("Device number", "").endswith("(%d)" % nd["devno"]):
+                return pth, "device number %s, image has %d" % (f.get("Device number"), nd["devno"])
+            if "Hard link count" in f and nd["kind"] != "dir" and int(f["Hard link count"]) != ino["nlink"]:
+                return pth, "hard link count %s, image has %d" % (f["Hard link count"], ino["nlink"])
+            return pth, None
+        with ThreadPoolExecutor(16) as ex:
+            for pth, bad in ex.map(one, names[:60]):
+                n += 1
+                if bad and "stat" not in seen:
+                    seen.add("stat")
+                    rep.violation("reader-disagrees", "rdsquashfs -s %r on %s: %s" % (pth, os.path.basename(s.dir), bad))
+        # -l of every directory: names as in the image
+        for dpath in [p for p in t if t[p]["kind"] == "dir"][:12]:
+            rc3, o3, e3 = sh([tools + "/rdsquashfs", "-l", "/" + dpath.decode(errors="surrogateescape"), img], timeout=60)
+            n += 1
+            want = sorted(p[len(dpath) + 1 if dpath else 0:] for p in t if p and (p.rsplit(b"/", 1)[0] if b"/" in p else b"") == dpath)
+            got = sorted(l.rsplit(b" ", 1)[-1] if b" -> " not in l else l.split(b" -> ")[0].rsplit(b" ", 1)[-1] for l in o3.split(b"\n") if l.strip())
+            if rc3 != 0 or len(got) != len(want):
+                if "list" not in seen:
+                    seen.add("list")
+                    rep.violation("reader-disagrees", "rdsquashfs -l /%s on %s: %d lines (rc %d), the image has %d entries" % (dpath.decode(errors="replace"), os.path.basename(s.dir), len(got), rc3, len(want)))
+    # compressor options stored in the image (-X) are read back by the real reader for every compressor
+    XO = {"gzip": "level=3,window=10,huffman,default", "xz": "dictsize=8192,x86,level=1", "lz4": "hc", "zstd": "level=7", "lzma": "dictsize=8192,lc=1,lp=1,pb=1"}
+    s0 = [x for x in sc if os.path.basename(x.dir) == "b_sizes"]
+    for comp, xo in XO.items():
+        if not s0:
+            break
+        s1 = s0[0]
+        img = s1.dir + "/xo_%s.sqfs" % comp
+        rc, o, e = sh([tools + "/gensquashfs", "-q", "-f", "-c", comp, "-X", xo, "-b", "4096", "-F", s1.packfile(), img], timeout=300)
+        if rc != 0:
+            rep.violation("pack-refuses-valid", "gensquashfs -c %s -X %s: exit %d %s" % (comp, xo, rc, e.decode(errors="replace")[-150:]))
+            continue
+        for nm in sorted(s1.files)[:10]:
+            n += 1
+            rc2, o2, e2 = sh([tools + "/rdsquashfs", "-c", nm, img], timeout=60)
+            if (rc2 != 0 or o2 != s1.files[nm]) and "xo" + comp not in seen:
+                seen.add("xo" + comp)
+                rep.violation("reader-disagrees", "image packed with -c %s -X %s: rdsquashfs -c %s returns different bytes (rc %d %s)" % (comp, xo, nm, rc2, e2.decode(errors="replace")[-100:]))
+    ev.set("stat_and_listing_queries", n)
+    shutil.rmtree(work + "/st", ignore_errors=True)
+    return n
+
+
 def run(tier):
     ev = Evidence(PID, tier, "exploration")
     rep = Reporter(PID, ev)
@@ -892,6 +1073,12 @@ def run(tier):
             rep.violation("id-table-overflow", "%d distinct ids: exit 0 but the image does not read back: %s" % (nid + 1, diffs))
         elif rc != 0 and nid + 1 <= 0xFFFF:
             rep.violation("pack-refuses-valid", "%d distinct ids are representable but gensquashfs refuses them (rc %d)" % (nid + 1, rc))
+    os.makedirs(work + "/st", exist_ok=True)
+    evaluations += stat_listing_stage(tools, work, rep, ev, rng)
+    cn = cli_opts_stage(tools, work, rep, ev, tier, rng)
+    if cn is None:
+        return 2
+    evaluations += cn
     dn = sqfsdiff_stage(tools, work, rep, ev, tier, rng)
     if dn is None:
         return 2
